@@ -25,6 +25,19 @@ def parseProds (s : String) : List (List Nat) :=
 
 def cyc {α : Type} [Inhabited α] (xs : List α) (age : Nat) : α := xs.getD ((age - 1) % xs.length) default
 
+/-- samples of every slot of the tempering helper (always the parallel driver), mapped with `obsOf` -/
+def temperRender (T s f nrep : Nat) (script : String) (obsOf : Rep → List Rat) : String :=
+  if chunkPanics nrep f then "panic" else
+  -- the parallel driver performs a tempering step after every s-th step as soon as there is a replica: the
+  -- observed swap script must have exactly that many steps
+  if decide (1 ≤ nrep) && decide (1 ≤ s) && (parseSwapScript script).length != T / s then
+    s!"SWAPSTEPS {(parseSwapScript script).length} DOCUMENTED {T / s}" else
+  let R := mockSys [] [] []
+  let c0 : List Rep × SwapScript := ((List.range nrep).map fun i => { gid := i, age := 0 }, parseSwapScript script)
+  let x := chunkRun (parallelContainer R revRoundRobin) T s f c0
+  String.intercalate " " ((List.range nrep).map fun i =>
+    render (x.samples.map fun row => obsOf (decRep (row.getD i []))))
+
 partial def step (toks : List String) : String :=
   match toks with
   -- the bond helpers are the same model with `value_for_bond` as mapper
@@ -45,21 +58,16 @@ partial def step (toks : List String) : String :=
     let sts := parseStates states
     render (calcSamples (· + 1) (fun a => a % 7) (fun a => cyc sts a) (fun _ => prodMapper (parseProds prods)) (parseNat T) (parseFreq f) 0)
   | ["temper", T, s, f, nrep, tables, script] =>
-    let T := parseNat T; let s := parseNat s; let f := parseNat f; let nrep := parseNat nrep
     let tabs := (tables.splitOn "!").map parseTable
-    if chunkPanics nrep f then "panic" else
-    -- the parallel driver performs a tempering step after every s-th step as soon as there is a replica: the
-    -- observed swap script must have exactly that many steps
-    if decide (1 ≤ nrep) && decide (1 ≤ s) && (parseSwapScript script).length != T / s then
-      s!"SWAPSTEPS {(parseSwapScript script).length} DOCUMENTED {T / s}" else
-    let R := mockSys [] [] []
-    let c0 : List Rep × SwapScript := ((List.range nrep).map fun i => { gid := i, age := 0 }, parseSwapScript script)
-    -- the tempering helper always uses the parallel driver
-    let x := chunkRun (parallelContainer R revRoundRobin) T s f c0
-    String.intercalate " " ((List.range nrep).map fun i =>
-      render (x.samples.map fun row =>
-        let r := decRep (row.getD i [])
-        cyc (tabs.getD r.gid []) r.age))
+    temperRender (parseNat T) (parseNat s) (parseNat f) (parseNat nrep) script fun r => cyc (tabs.getD r.gid []) r.age
+  -- tempering spin helpers: the state of graph `gid` after its `age`-th step is prescribed
+  | ["tempervars", T, s, f, nrep, tables, script] =>
+    let tabs := (tables.splitOn "!").map parseStates
+    temperRender (parseNat T) (parseNat s) (parseNat f) (parseNat nrep) script fun r => varMapper (cyc (tabs.getD r.gid []) r.age)
+  | ["temperprod", T, s, f, nrep, tables, prods, script] =>
+    let tabs := (tables.splitOn "!").map parseStates
+    let ps := parseProds prods
+    temperRender (parseNat T) (parseNat s) (parseNat f) (parseNat nrep) script fun r => prodMapper ps (cyc (tabs.getD r.gid []) r.age)
   | _ => "bad-op"
 
 def main : IO Unit := run step
